@@ -272,7 +272,8 @@ SPECS = [
 
 RESERVED = set("""fs exn tt true false nil Some None Z N TOk TRaise tbind tget tfor ttry tmapM tfoldM afind aset amem
 tlen tslice tindex tsetindex trange tenumerate nv_int nv_item NCount NLevel zfloat int_truediv float_div float_div_int
-pystr_int zcnt_get path_join fs_put most_common_by rev map fst snd forallb existsb negb Continue Return
+pystr_int zcnt_get path_join fs_put most_common_by rev map fst snd forallb existsb negb Continue Return repeat al_blank ag_blank
+call_save_config float_div float_div_int zcount
 mlog mfloor mrepr save_config EKey EIndex EZeroDiv EType EIO texn_eqb
 fun let in if then else match with end forall exists Type Prop Set SProp as at return fix cofix struct where using
 for mod""".split()) | {s["coq"] for s in SPECS}
@@ -965,10 +966,12 @@ class FunctionTranslator:
               ast.Import, ast.ImportFrom, ast.FunctionDef, ast.AsyncFunctionDef, ast.ClassDef, ast.Break, ast.Assert,
               ast.Match, ast.Await, ast.AsyncFor, ast.AsyncWith, ast.SetComp, ast.DictComp, ast.Starred)
 
-    def assigned(self, stmts, env):
-        """names of the roots / scalars (re)bound or mutated somewhere in stmts, in order of first occurrence"""
+    def assigned(self, stmts, env, pre_alias=None):
+        """names of the roots / scalars (re)bound or mutated somewhere in stmts, in order of first occurrence;
+        pre_alias: names (loop targets) that stand for sub-objects of a root"""
         out = []
         amap = {n: d[1].root for n, d in env.vars.items() if d[0] == "alias"}
+        amap.update(pre_alias or {})
 
         def add(n):
             if n not in out:
@@ -1069,8 +1072,11 @@ class FunctionTranslator:
         return out
 
     def carried(self, stmts, env, node):
+        return self.carried_names(stmts, env, node, None)
+
+    def carried_names(self, stmts, env, node, pre_alias):
         """the joined / loop-carried variables of stmts: assigned there and bound before, canonical order"""
-        names = [n for n in self.assigned(stmts, env) if n in env.vars]
+        names = [n for n in self.assigned(stmts, env, pre_alias) if n in env.vars]
         for n in names:
             kind = env.vars[n][0]
             if kind in ("alias", "cdict", "exc"):
@@ -1237,8 +1243,10 @@ class FunctionTranslator:
                 self.fail(s, "a mutable object may only be stored as a fresh literal of the right type")
             kind = p.steps[-1][0]
             if kind == "item":
-                if (ast.dump(target.slice), ast.dump(target.value)) not in self.guards:
+                g = (ast.dump(target.slice), ast.dump(target.value))
+                if g not in self.guards:
                     self.fail(s, "a container may only be stored directly under `if k not in D:` for the same k and D")
+                self.guards.remove(g)        # used up: a second store would replace the object just created
             elif not (self.spec.get("init") and p.root == "self" and len(p.steps) == 1):
                 self.fail(s, "a container may only replace a field in __init__")
             new = v.text
@@ -1449,8 +1457,8 @@ class FunctionTranslator:
             try:
                 return self.block(stmts, env_t, kk, i)
             finally:
-                if guard:
-                    self.guards.pop()
+                if guard and guard in self.guards:
+                    self.guards.remove(guard)
 
         try:
             esc = any(self.escapes(n) for n in body + orelse)
@@ -1490,16 +1498,34 @@ class FunctionTranslator:
         try:
             return self.block(list(first) + [_Resume(end_guard=guard)] + list(rest), env, k, ind)
         finally:
-            if guard:
-                self.guards.pop()
+            if guard and guard in self.guards:
+                self.guards.remove(guard)
 
     def for_(self, s, rest, env, k, ind):
         if s.orelse:
             self.fail(s, "for ... else")
         it = s.iter
         inner = env.copy()
-        names = self.carried(s.body, env, s)
-        body_assigned = self.assigned(s.body, env)
+        # a store through a loop target that names a sub-object of the iterated container is a store to its root
+        pre = {}
+        it_root = it
+        while True:
+            if isinstance(it_root, (ast.Subscript, ast.Attribute)):
+                it_root = it_root.value
+            elif isinstance(it_root, ast.Call) and isinstance(it_root.func, ast.Attribute) and not it_root.args:
+                it_root = it_root.func.value
+            elif isinstance(it_root, ast.Call) and isinstance(it_root.func, ast.Name) and it_root.func.id == "enumerate" \
+                    and len(it_root.args) == 1:
+                it_root = it_root.args[0]
+            else:
+                break
+        if isinstance(it_root, ast.Name) and it_root.id in env.vars and env.vars[it_root.id][0] in ("root", "alias"):
+            r = env.vars[it_root.id][1].root if env.vars[it_root.id][0] == "alias" else it_root.id
+            for t in ast.walk(s.target):
+                if isinstance(t, ast.Name):
+                    pre[t.id] = r
+        names = [n for n in self.carried_names(s.body, env, s, pre)]
+        body_assigned = self.assigned(s.body, env, pre)
         head_lines = []          # lines at the start of the body
         live = None
 
